@@ -98,6 +98,8 @@ pub struct SimConsole {
     last_regs: [u16; 14],
     /// spin guard: consecutive prompt-level reads at EOF (a real run would never end)
     eof_prompt_reads: u32,
+    /// spin guard: records written since the last instruction or the last line of input
+    recs_since_progress: u64,
 }
 
 /// Payload used to stop a run that the simulator has proved will never end (EOF spin)
@@ -124,6 +126,7 @@ impl SimConsole {
             adaptive,
             last_regs: [0; 14],
             eof_prompt_reads: 0,
+            recs_since_progress: 0,
         }
     }
 
@@ -161,9 +164,17 @@ pub fn regs_of(vm: &VM) -> [u16; 14] {
 impl Console for SimConsole {
     fn emit(&mut self, module: &'static str, line: u32, text: &str) {
         let origin = if module == "main_stub" { Origin::Main } else { origin_of(module) };
-        if self.sh.borrow().events.len() > 400_000 {
-            // unbounded output without progress: stop the run, the oracle sees no proper end
-            // (before the record is logged, so that records and raw output stay in step)
+        // one print statement may legitimately dump the whole 1 MiB (1 048 576 byte records plus
+        // 65 536 row ends); more output than that without a single instruction or input line in
+        // between is output without progress: stop the run, the oracle sees no proper end
+        // (before the record is logged, so that records and raw output stay in step)
+        self.recs_since_progress += 1;
+        if self.recs_since_progress > 1_200_000 {
+            std::panic::resume_unwind(Box::new(SimSpin));
+        }
+        // a memory guard, not a verdict: very long histories end as "out of fuel"
+        if self.sh.borrow().events.len() > 4_000_000 {
+            self.push(Event::Fuel);
             std::panic::resume_unwind(Box::new(SimSpin));
         }
         self.push(Event::Rec { origin, line, text: text.to_owned() });
@@ -195,6 +206,9 @@ impl Console for SimConsole {
             Err(e) => LineRes::Err(format!("{:?}", e.kind())),
         };
         let at_eof = matches!(res, LineRes::Eof);
+        if matches!(res, LineRes::Ok(_)) {
+            self.recs_since_progress = 0;
+        }
         self.push(Event::Line { who, res });
         if who == Who::Prompt && at_eof {
             self.eof_prompt_reads += 1;
@@ -214,6 +228,7 @@ impl Console for SimConsole {
             self.push(Event::Fuel);
             return true;
         }
+        self.recs_since_progress = 0;
         let mem = mem_delta(&mut self.shadow, &vm.mem[..]);
         self.last_regs = regs_of(vm);
         self.push(Event::Probe { idx, code: code.to_owned(), regs: regs_of(vm), mem });
